@@ -38,7 +38,7 @@ LEVEL_TEXT = ("For every table built from <= 2 (quick) / <= 3 (thorough) column 
               "record limits (one with a zero) and two record sets, every state reachable by <= 3 / <= 4 life-cycle operations "
               "is visited; in each state str(table.fmt) is fed to the setter and to the constructor and the "
               "renderings are compared; empty formats must change nothing.")
-LEVEL_NOTE = ("Bounded: column alphabet of 17 descriptions over three fields, two record sets, depth of the "
+LEVEL_NOTE = ("Bounded: column alphabet of 18 descriptions over three fields, two record sets, depth of the "
               "life-cycle. Trusted: the small reference parser of the fmt grammar in this file. Renderings are "
               "compared without colors (C10 covers colors).")
 RULE = ("case = one distinct state (canonical key) of one table's life-cycle machine, reached by the shortest "
@@ -64,8 +64,7 @@ COLS = ["id:3", "name:5", "st:12",                     # fixed (name:5 truncates
         "st/val", "st/name:3-20", "st/full:20",          # enum modifiers
         "id!:2", "st!", "st/name!:3-8", "name!",         # break-by
         "name:-1"]                                       # hidden field
-COLS3 = ["id:3", "name:2-6", "name:3-20", "st", "st/val", "st/name!:3-8", "id!:2", "name!", "name:-1", "st:4-30",
-         "id", "st/full:20"]
+COLS3 = ["id:3", "name:2-6", "name:3-20", "st", "st/val", "st/name!:3-8", "id!:2", "name!", "name:-1", "st:4-30"]
 LIMITS = {"none": "", "star": ";*", "1:1": ";1:1", "2:0": ";2:0"}
 RECORDS = {
     "small": [(1, "ab", 10), (2, "abcdefgh", 10), (3, "abc", 999)],
